@@ -396,7 +396,7 @@ func main() {
 		defer pprof.StopCPUProfile()
 		stopProf = pprof.StopCPUProfile
 	}
-	r := ev.Start("C13", "exploration", 165*time.Second, 27*time.Minute)
+	r := ev.Start("C13", "exploration", 5*time.Minute, 45*time.Minute)
 
 	npmDocs := genNpmDocs(r.Thorough())
 	pomDocs := genPomDocs(r.Thorough())
